@@ -63,6 +63,9 @@ pub struct Proc {
     pub fault: i32,
     /// nb: extra stray events injected during the procedure (positions are taken modulo the step count)
     pub noise: Vec<u32>,
+    /// nb: stop after the request step (the transmission itself is all that is observed)
+    #[serde(default)]
+    pub stop_after_tx: bool,
 }
 
 #[derive(Clone, Debug, Serialize, Deserialize)]
@@ -95,6 +98,11 @@ pub enum Op {
     SetSession { doc: String },
     /// async + class C: listen outside a procedure; frames then (pending => future dropped)
     Rxc { frames: Vec<Frame> },
+    /// trace markers for forked continuations (the device is re-created and the prefix re-executed silently)
+    Checkpoint,
+    Restore { id: usize },
+    /// silent prefix re-execution ends here: un-mute the trace
+    Unmute,
 }
 
 pub const BOARDS: [(u8, i8); 4] = [(14, 0), (21, 2), (30, -3), (10, 5)];
@@ -229,6 +237,18 @@ impl<'a> Runner<'a> {
     fn exec<const P: u8, const G: i8>(&mut self, dev: &mut Dev<P, G>, op: &Op) -> bool {
         match op {
             Op::Reset { .. } => unreachable!(),
+            Op::Checkpoint => {
+                self.emit(dev, json!({"ev": "checkpoint"}), Some(op));
+                true
+            }
+            Op::Unmute => {
+                self.out.mute = false;
+                true
+            }
+            Op::Restore { id } => {
+                self.emit(dev, json!({"ev": "restore", "id": id}), Some(op));
+                true
+            }
             Op::JoinAbp { nwk, app, addr } => {
                 let jm = JoinMode::ABP {
                     nwkskey: NwkSKey::from(*nwk),
@@ -503,7 +523,7 @@ impl<'a> Runner<'a> {
             self.nb_step(dev, "send", json!({"args": args}), Some(op), move |d| d.send(&data, port, confirmed))
         };
         let Some(k) = k else { return false };
-        if k.starts_with("Err") {
+        if k.starts_with("Err") || plan.stop_after_tx {
             return true;
         }
         // 2. asynchronous TX completion
@@ -606,7 +626,7 @@ pub type GenFn<'g> = dyn FnMut(&View) -> Option<Op> + 'g;
 
 /// Run one history on freshly created devices.  `ops[0]` must be Reset; after the fixed ops
 /// are exhausted, `generator` (if any) supplies further ops until it returns None.
-pub fn run_history(out: &mut TraceWriter, ops: &[Op], seed: u64, generator: Option<&mut GenFn<'_>>) {
+pub fn run_history(out: &mut TraceWriter, ops: &[Op], seed: u64, generator: Option<&mut GenFn<'_>>) -> Vec<Op> {
     let Op::Reset { board, .. } = &ops[0] else { panic!("history must start with Reset") };
     match BOARDS[*board % 4] {
         (14, 0) => run_typed::<14, 0>(out, ops, seed, generator),
@@ -640,7 +660,7 @@ fn view_of<const P: u8, const G: i8>(dev: &mut Dev<P, G>, steps: usize) -> View 
     }
 }
 
-fn run_typed<const P: u8, const G: i8>(out: &mut TraceWriter, ops: &[Op], seed: u64, mut generator: Option<&mut GenFn<'_>>) {
+fn run_typed<const P: u8, const G: i8>(out: &mut TraceWriter, ops: &[Op], seed: u64, mut generator: Option<&mut GenFn<'_>>) -> Vec<Op> {
     let Op::Reset { region, front, classc, board, bias_sb, bias_retries, lead, buffer, offset, duration, session } = &ops[0]
     else {
         unreachable!()
@@ -681,11 +701,13 @@ fn run_typed<const P: u8, const G: i8>(out: &mut TraceWriter, ops: &[Op], seed: 
         "lead": lead, "buffer": buffer, "offset": offset, "duration": duration,
         "seeded": session.is_some() as u8});
     r.emit(&mut dev, ev, Some(&ops[0]));
+    let mut executed: Vec<Op> = vec![ops[0].clone()];
     let mut steps = 0usize;
     for op in &ops[1..] {
         steps += 1;
+        executed.push(op.clone());
         if !r.exec(&mut dev, op) {
-            return;
+            return executed;
         }
     }
     if let Some(g) = generator.as_mut() {
@@ -693,11 +715,13 @@ fn run_typed<const P: u8, const G: i8>(out: &mut TraceWriter, ops: &[Op], seed: 
             let v = view_of(&mut dev, steps);
             let Some(op) = g(&v) else { break };
             steps += 1;
+            executed.push(op.clone());
             if !r.exec(&mut dev, &op) {
-                return;
+                return executed;
             }
         }
     }
+    executed
 }
 
 // ------------------------------------------------------------------ network side
@@ -1081,7 +1105,9 @@ impl Gen {
             6 => {
                 // oversize: authentic or not, longer than any data rate of the window allows
                 let n = fresh_n(&mut self.rng, last);
-                let len = [60usize, 120, 130, 242][self.rng.gen_range(0..4)];
+                // total frame length L = 13 + len; window limits are max MACPayload + 5 for 19/59/61/123/133/137/250
+                let len = [10usize, 11, 12, 50, 51, 52, 53, 54, 114, 115, 116, 124, 125, 126, 128, 129, 130, 241, 242]
+                    [self.rng.gen_range(0..19)];
                 let pl = rnd_vec(&mut self.rng, len);
                 let auth = self.rng.gen_bool(0.5);
                 let mut b = net.data(n, false, false, &[], 9, &pl, false, false);
@@ -1226,6 +1252,26 @@ impl Gen {
     }
 }
 
+/// A session document (serde JSON of `Session`) with counters at chosen boundaries.
+pub fn seeded_session(rng: &mut StdRng, profile: &str) -> Option<String> {
+    let (ups, downs): (&[u64], &[i64]) = match profile {
+        "fcnt" => (&[0, 5, 0xFFFE], &[-1, 0, 0xFFFE, 0xFFFF, 0x1FFFE, 0x1_0000, 0x7FFF_FFFE, 0xFFFF_BFFE, 0xFFFF_FFFC, 0xFFFF_FFFE]),
+        "faults" => (&[0, 0xFFFE, 0xFFFF, 0x1_FFFF, 0xFFFF_FFFC, 0xFFFF_FFFD, 0xFFFF_FFFE, 0xFFFF_FFFF], &[-1, 0]),
+        "adr" => (&[0, 0xFFFF_FF00], &[-1]),
+        _ => return None,
+    };
+    if rng.gen_ratio(1, 3) {
+        return None;
+    }
+    let s = Session::new(NwkSKey::from(rng.r#gen::<[u8; 16]>()), AppSKey::from(rng.r#gen::<[u8; 16]>()),
+                         DevAddr::from_wire_bytes(rng.r#gen()));
+    let mut v = serde_json::to_value(&s).ok()?;
+    v["fcnt_up"] = json!(ups[rng.gen_range(0..ups.len())]);
+    let d = downs[rng.gen_range(0..downs.len())];
+    v["fcnt_down"] = if d < 0 { Value::Null } else { json!(d) };
+    Some(v.to_string())
+}
+
 fn reset_op(rng: &mut StdRng, region: &str, front: &str, classc: bool) -> Op {
     let fixed = region == "US915" || region == "AU915";
     Op::Reset {
@@ -1263,7 +1309,10 @@ pub fn vh_mac(a: &Args) {
                     _ => ("async", true),
                 };
                 let seed: u64 = rng.r#gen();
-                let reset = reset_op(&mut rng, region, fr, classc);
+                let mut reset = reset_op(&mut rng, region, fr, classc);
+                if let Op::Reset { session, .. } = &mut reset {
+                    *session = seeded_session(&mut rng, a.get("profile").unwrap_or("mixed"));
+                }
                 // weight presets per property profile
                 let profile = a.get("profile").unwrap_or("mixed");
                 let (p_rejoin, ja_enum) = if profile == "join" { (0.35, true) } else { (0.0, false) };
@@ -1283,7 +1332,44 @@ pub fn vh_mac(a: &Args) {
                     p_downlink, p_cmds, p_reject, p_fault, p_rejoin, ja_enum,
                 });
                 let mut f = |v: &View| g.next(v);
-                run_history(out.shard(h), &[reset], seed, Some(&mut f));
+                if profile != "tx" {
+                    let _ = run_history(out.shard(h), &[reset], seed, Some(&mut f));
+                } else {
+                    // C09: every possible channel choice.  Run once silently to fix the op list, re-run it
+                    // with checkpoints before the last two sends, then fork each checkpoint once per
+                    // possible first RNG draw (the device is re-created and the prefix re-executed silently).
+                    let w = out.shard(h);
+                    w.mute = true;
+                    let ops = run_history(w, &[reset], seed, Some(&mut f));
+                    w.mute = false;
+                    let sends: Vec<usize> = ops.iter().enumerate().filter(|(_, o)| matches!(o, Op::Send { .. })).map(|(i, _)| i).collect();
+                    let picks: Vec<usize> = sends.iter().rev().take(2).rev().copied().collect();
+                    let mut with_ck: Vec<Op> = vec![];
+                    for (i, o) in ops.iter().enumerate() {
+                        if picks.contains(&i) {
+                            with_ck.push(Op::Checkpoint);
+                        }
+                        with_ck.push(o.clone());
+                    }
+                    let _ = run_history(w, &with_ck, seed, None);
+                    let fixed = region == "US915" || region == "AU915";
+                    let ndraws: u32 = if fixed { 64 } else { 16 };
+                    for (id, &i) in picks.iter().enumerate() {
+                        let Op::Send { port, data, confirmed, .. } = &ops[i] else { continue };
+                        for d in 0..ndraws {
+                            let mut fork: Vec<Op> = ops[..i].to_vec();
+                            fork.push(Op::Unmute);
+                            fork.push(Op::Restore { id: id + 1 });
+                            fork.push(Op::Send {
+                                port: *port, data: data.clone(), confirmed: *confirmed, draws: vec![d],
+                                plan: Proc { tx: "done".into(), ts: 1, fault: -1, stop_after_tx: true, ..Default::default() },
+                            });
+                            w.mute = true;
+                            let _ = run_history(w, &fork, seed, None);
+                            w.mute = false;
+                        }
+                    }
+                }
                 h += 1;
             }
         }
@@ -1297,6 +1383,63 @@ pub fn vh_macreplay(a: &Args) {
     let v: Value = serde_json::from_str(&text).unwrap();
     let ops: Vec<Op> = v["ops"].as_array().unwrap().iter().map(|o| serde_json::from_value(o.clone()).unwrap()).collect();
     let mut out = crate::cli::Shards::create(&a.out, "mac", 1);
-    run_history(out.shard(0), &ops, a.seed, None);
+    let _ = run_history(out.shard(0), &ops, a.seed, None);
     println!("events={} histories=1", out.finish());
+}
+
+/// `vh fcnt`: the downlink counter reconstruction (hook `verif_next_fcnt_down`) for chosen `last` values and
+/// ALL 65536 wire values, logged losslessly as runs [w_from, w_to, hi] (hi = -1: dropped; else N = hi<<16 | w).
+pub fn vh_fcnt(a: &Args) {
+    use lorawan_device::mac::verif_next_fcnt_down;
+    let mut out = crate::cli::Shards::create(&a.out, "fcnt", a.shards);
+    let mut lasts: Vec<Option<u32>> = vec![None];
+    let bases: [u64; 9] = [0, 16384, 0xFFFF, 0x10000, 0x7FFF_FFFF, 0x8000_0000, 0xFFFF_0000, 0xFFFF_BFFF, 0xFFFF_FFFF];
+    let near: Vec<i64> = if a.thorough {
+        let mut v: Vec<i64> = (-40..=40).collect();
+        v.extend([-70000, -65537, -65536, -65535, -16385, -16384, -16383, -1000, 1000, 16383, 16384, 16385, 65535, 65536, 65537, 70000]);
+        v
+    } else {
+        vec![-65536, -16385, -16384, -2, -1, 0, 1, 2, 16383, 16384, 16385, 65535]
+    };
+    for b in bases {
+        for d in &near {
+            let v = b as i64 + d;
+            if (0..=u32::MAX as i64).contains(&v) {
+                lasts.push(Some(v as u32));
+            }
+        }
+    }
+    let mut rng = StdRng::seed_from_u64(a.seed ^ 0xFC);
+    for _ in 0..(if a.thorough { 200 } else { 10 }) {
+        lasts.push(Some(rng.r#gen()));
+    }
+    lasts.sort();
+    lasts.dedup();
+    for last in lasts {
+        let mut runs: Vec<[i64; 3]> = vec![];
+        let mut panics = 0;
+        for w in 0..=65535u32 {
+            let r = catch(|| verif_next_fcnt_down(last, w as u16));
+            let hi: i64 = match r {
+                Ok(Some(n)) => {
+                    if n & 0xFFFF != w { -2 } else { (n >> 16) as i64 }
+                }
+                Ok(None) => -1,
+                Err(_) => {
+                    panics += 1;
+                    -3
+                }
+            };
+            match runs.last_mut() {
+                Some(r) if r[2] == hi && r[1] + 1 == w as i64 => r[1] = w as i64,
+                _ => runs.push([w as i64, w as i64, hi]),
+            }
+        }
+        let l = match last {
+            None => json!([]),
+            Some(v) => json!([v >> 16, v & 0xFFFF]),
+        };
+        out.emit(&json!({"ev": "fcnt", "last": l, "runs": runs, "panics": panics}));
+    }
+    println!("events={}", out.finish());
 }
